@@ -184,6 +184,33 @@ def _is_path(ctx, truth):
     return (not bad, "a mapping name is a path <=> it is present and contains '/' (8 sample names incl. bracketed pseudo-names)", "is_mapping_a_path differs from `Some and contains '/'` for %s" % bad[:3], b[0])
 
 
+@spec("auxv_is_complete")
+def _auxv_is_complete(ctx, truth):
+    b = ctx.prog.by_short.get("linux::auxv::AuxvDumpInfo::is_complete")
+    if not b:
+        return None, "anchor missing"
+    fields = ("program_header_count", "program_header_address", "linux_gate_address", "entry_address")
+    bad = []
+    for vals in itertools.product((0, 1), repeat=4):
+        env = dict(zip(fields, vals))
+
+        def leaf(e, env=env):
+            e = core(e)
+            if e[0] == "call" and e[1].split("::")[-1] in ("is_some", "is_none") and e[2]:
+                f = core(e[2][0])
+                if f[0] == "field" and f[2] in env:
+                    return bool(env[f[2]]) == (e[1].split("::")[-1] == "is_some")
+            if e[0] == "discr":
+                f = core(e[1])
+                if f[0] == "field" and f[2] in env:
+                    return (env[f[2]], "isize")
+            return None
+        if truth(b[0], leaf) != all(vals):
+            bad.append({k: v for k, v in env.items() if not v} or "all present")
+    return (not bad, "auxv information is complete <=> all four of PHNUM, PHDR, SYSINFO_EHDR and ENTRY are present (16 rows)",
+            "is_complete() is true although something is still missing (or false although nothing is): %s — try_filling_missing_info() returns early on `complete`, so the missing value is never read from /proc/<pid>/auxv" % bad[:3], b[0])
+
+
 def run(ctx, prop, names):
     from rules import c06
     truth = lambda body, leaf: c06.bool_fn_truth(ctx.prog, body, leaf)
